@@ -2,6 +2,7 @@ package checks
 
 import (
 	"bytes"
+	"errors"
 	"context"
 	"crypto/sha512"
 	"encoding/hex"
@@ -373,6 +374,11 @@ func runC08Extract(c *fw.Case) {
 		res, err := runGated(g, syscall.SIGKILL, args(g)...)
 		served := g.requests("GET")
 		g.close()
+		if errors.Is(err, errProcTimeout) {
+			c.Probe("procsim-timeout-case-dropped")
+			c.Outcome("dropped")
+			return
+		}
 		if err != nil {
 			c.HarnessError("kill at request %d: %v", k, err)
 			return
